@@ -283,12 +283,19 @@ def run(ctx):
                     spec2 = make_spec(rng)
                     if rng.random() < 0.15:
                         spec2.dtype = np.float32
-                    n = int(rng.choice([1, 2, 5, 40, 600, 5000], p=[.15, .15, .25, .25, .15, .05]))
+                    n = int(rng.choice([0, 1, 2, 5, 40, 600, 5000], p=[.05, .12, .13, .25, .25, .15, .05]))
                     cols = make_rows(spec2, n, rng)
-                    build_samples(spec2, cols).write(path, overwrite=True)
+                    if op == "write-new" and rng.random() < 0.25:
+                        # the first write of a new file through append=True (what a loop that always appends does)
+                        if os.path.exists(path):
+                            os.unlink(path)
+                        build_samples(spec2, cols).write(path, append=True)
+                        op = "write-new-by-append"
+                    else:
+                        build_samples(spec2, cols).write(path, overwrite=True)
                     spec, rows = spec2, [cols]
                     shape_cls = (len(spec.names), str(spec.dtype.__name__), spec.t_ref is None, spec.poly, spec.noff,
-                                 "n1" if n == 1 else "n>1")
+                                 "n0" if n == 0 else "n1" if n == 1 else "n>1")
                     outcome = "accepted"
                 elif op == "plain-rewrite":
                     h0 = sha(path)
@@ -301,7 +308,7 @@ def run(ctx):
                         if sha(path) != h0:
                             ctx.violation("refused-write-altered-file", "refused write changed the file", desc)
                 elif op == "append-ok":
-                    n = int(rng.choice([1, 2, 7, 300]))
+                    n = int(rng.choice([0, 1, 2, 7, 300], p=[.08, .23, .23, .23, .23]))
                     cols = make_rows(spec, n, rng)
                     if rng.random() < 0.3:
                         import h5py
@@ -358,7 +365,8 @@ def run(ctx):
                         s2.noff = s2.noff + 1
                     elif kind == "dtype":
                         s2.dtype = np.float32 if spec.dtype == np.float64 else np.float64
-                    cols = make_rows(s2, int(rng.choice([1, 3, 50])), rng)
+                    cols = make_rows(s2, int(rng.choice([0, 1, 3, 50], p=[.1, .3, .3, .3])), rng)
+                    desc["rows_offered"] = len(cols["P"]) if "P" in cols else None
                     h0 = sha(path)
                     via_handle = bool(rng.random() < 0.3)
                     desc["via_open_handle"] = via_handle
@@ -391,8 +399,11 @@ def run(ctx):
                 elif op == "read":
                     outcome = "ok"
                 elif op == "read_batch":
-                    k2, outcome = check_read_batch(ctx, path, spec, rows, rng, desc)
-                    op = "read_batch:" + k2
+                    if sum(len(next(iter(r.values()))) for r in rows) == 0:
+                        op, outcome = "read", "ok"                     # an empty table: only the full read is compared
+                    else:
+                        k2, outcome = check_read_batch(ctx, path, spec, rows, rng, desc)
+                        op = "read_batch:" + k2
                 hist.append((op, outcome))
                 ctx.distinct.add(repr((op, outcome, shape_cls)))
                 # after every step the file must equal the model
